@@ -390,6 +390,30 @@ def expand_dict_splats(tree):
     return changed
 
 
+# ---------------------------------------------------------------------------------------------- pass: read-modify-write through a local
+def rmw_through_local(tree):
+    """`t = X[k] - c; X[k] = t`  ->  `X[k] -= c; t = X[k]`   (X, k side-effect-free names; also `+`)."""
+    changed = 0
+    for _o, _f, lst in list(stmt_lists(tree)):
+        i = 0
+        while i + 1 < len(lst):
+            a, b = lst[i], lst[i + 1]
+            if isinstance(a, ast.Assign) and len(a.targets) == 1 and isinstance(a.targets[0], ast.Name) and isinstance(a.value, ast.BinOp) \
+                    and isinstance(a.value.op, (ast.Sub, ast.Add)) and isinstance(a.value.left, ast.Subscript) \
+                    and is_pure_simple(a.value.left.value) and is_pure_simple(a.value.left.slice) and isinstance(a.value.right, ast.Constant) \
+                    and isinstance(b, ast.Assign) and len(b.targets) == 1 and isinstance(b.targets[0], ast.Subscript) \
+                    and isinstance(b.value, ast.Name) and b.value.id == a.targets[0].id \
+                    and ast.dump(b.targets[0].value) == ast.dump(a.value.left.value) and ast.dump(b.targets[0].slice) == ast.dump(a.value.left.slice):
+                aug = _loc(ast.AugAssign(target=copy.deepcopy(b.targets[0]), op=a.value.op, value=a.value.right), a)
+                rd = copy.deepcopy(a.value.left)
+                rd.ctx = ast.Load()
+                ld = _loc(ast.Assign(targets=[a.targets[0]], value=rd), b)
+                lst[i:i + 2] = [aug, ld]
+                changed += 1
+            i += 1
+    return changed
+
+
 # ---------------------------------------------------------------------------------------------- pass: multi-item with -> nested
 class SplitWith(ast.NodeTransformer):
     """`with A as x, B as y: body`  is by definition  `with A as x: with B as y: body`."""
@@ -2001,7 +2025,7 @@ def canonicalise(trees, level, known_funcs=None):
         mt.visit(tree)
         sw = SplitWith()
         sw.visit(tree)
-        mt.changed += sw.changed + expand_dict_splats(tree)
+        mt.changed += sw.changed + expand_dict_splats(tree) + rmw_through_local(tree)
         n_acq = acquire_to_with(tree)
         n_obj = objects_to_closures(tree, counter)
         n_inl = inline_closures(tree, counter)
